@@ -22,10 +22,14 @@ Upper(c) == CASE c = "a" -> "A" [] c = "b" -> "B" [] c = "c" -> "C" [] c = "d" -
 
 Variants(w) == {Chars(w), Chars(w \o "X"), Chars(w \o "_"), Chars(w \o "2"), Chars(SubSeq(w, 1, Len(w) - 1)),
                 Chars(Upper(SubSeq(w, 1, 1)) \o SubSeq(w, 2, Len(w))), Chars(w \o w),
-                Chars(w) \o <<"EACUTE">>, <<"CJK">> \o Chars(w), Chars("_" \o w)}
+                Chars(w) \o <<"EACUTE">>, <<"CJK">> \o Chars(w), Chars("_" \o w), Chars(w) \o <<"ARDIGIT">>,
+                Chars(w) \o <<"FWDIGIT">> \o Chars("y")}
 
 Numerics == {Chars(x) : x \in {"0", "1", "007", "42", "4294967295", "4294967296", "99999999999", "1.5", "1.", ".5", "-5", "-.5f",
-                               "+3", "1f", "1.5f", "1f2", "1e5", "0x10", "1_0", "--1", "+", "-", "1.2.3", "1abc", "..", "1..2"}}
+                               "+3", "1f", "1.5f", "1f2", "1e5", "0x10", "1_0", "--1", "+", "-", "1.2.3", "1abc", "..", "1..2",
+                               "18446744073709551615", "18446744073709551616", "340282366920938463463374607431768211456",
+                               "00000000000000000000000000000000000001"}}
+            \cup {<<"ARDIGIT">>, <<"1", "ARDIGIT">>, <<"ARDIGIT", "f">>, <<"x", "ARDIGIT">>, <<"1", ".", "FWDIGIT">>, <<"-", "ARDIGIT">>}
 
 Specials == {Chars("\"abc\""), Chars("\"a/*b*/c\""), Chars("\"unterminated"), Chars("\"a") \o <<"LF">> \o Chars("b\""),
              Chars("\"") \o <<"EACUTE", "CJK", "EMOJI">> \o Chars("\""), Chars("/* c */x"), Chars("/* \"q\" */x"), Chars("/* open"),
@@ -54,7 +58,7 @@ Frames ==
    glued   |-> [pre |-> "package p; interface I { void f(in", suf |-> " x); }"]]
 
 \* MODE = "inject": every hazard atom at EVERY character gap of a frame document that contains every construct
-Hazard == {"EACUTE", "CJK", "EMOJI", "COMB", "NBSP", "IDSP", "LSEP", "NEL", "CR", "LF", "TAB", "\"", "/", "*"}
+Hazard == {"EACUTE", "CJK", "EMOJI", "COMB", "NBSP", "IDSP", "LSEP", "NEL", "CR", "LF", "TAB", "\"", "/", "*", "ARDIGIT"}
 InjectFrames ==
   [small |-> "package a.b; import c.D; /** doc */ @A(k=1) interface I { /* c */ oneway void f(in @B List<D> x, out int[] y) = 7; const String S = \"s\"; }",
    parc  |-> "package p; parcelable P { /** d */ int a = 1; String s = \"x\"; float f = -1.5f; int[] arr = {1, 2}; const int C = A.B; Map m; }",
